@@ -312,6 +312,8 @@ InstC15(h) ==
       repls == IF big THEN Repls ELSE {<<>>, sMAJ, <<45>>} IN
   {Inst("Mask", r, [ref |-> rf, start |-> s, len |-> n, repl |-> rp, nogap |-> ng, noref |-> nr]) :
       rf \in refs, s \in starts, n \in lens, rp \in repls, ng \in Bools, nr \in Bools}
+  \* lengths of 2^30 + k stand for the largest integers (MaxInt64 - k) in the call: start + length must not wrap around
+  \cup {Inst("Mask", r, [ref |-> <<>>, start |-> s, len |-> 1073741824 + k, repl |-> <<>>, nogap |-> FALSE, noref |-> FALSE]) : s \in {0, 1}, k \in {0, 1}}
   \cup {Inst("MaskOccurences", r, [ref |-> rf, max |-> m, repl |-> rp]) : rf \in refs, m \in 0..(Len(o.rows) + 1), rp \in repls}
   \cup {Inst("MaskUnique", r, [ref |-> rf, repl |-> rp]) : rf \in refs, rp \in repls}
   \cup {Inst("MaskPositions", r, [ref |-> rf, pos |-> ps, repl |-> rp, nogap |-> ng, noref |-> FALSE]) :
